@@ -514,45 +514,54 @@ def run(prog, rep, tier):
 
 
 # ------------------------------------------------------------------------------
-# self-test variants
+# self-test variants (texts refer to the tree with the F03 repair committed)
 #
 _TM = 'task_manager.py'
 
-# proposed fix (see /verif/proposed_fixes/F03.diff)
-_LOOP = "                for task in self._tasks.values():\n\n                    update = {'uid'             : task.uid,\n"
-FIX_F03 = (_TM, _LOOP,
-    "                for task in self._tasks.values():\n\n"
-    "                    # only tasks bound to this pilot are affected, and only\n"
-    "                    # if they did not reach a final state on their own\n"
-    "                    if task.pilot != pid:\n"
-    "                        continue\n\n"
-    "                    if task.state in rps.FINAL:\n"
-    "                        continue\n\n"
-    "                    update = {'uid'             : task.uid,\n")
+_HEAD = "                for task in self._tasks.values():\n\n"
+_CMT  = ("                    # only tasks bound to this pilot are affected, and only\n"
+         "                    # if they did not reach a final state on their own\n")
+_BIND = "                    if task.pilot != pid:\n                        continue\n\n"
+_NFIN = "                    if task.state in rps.FINAL:\n                        continue\n\n"
+_UPD  = ("                    update = {'uid'             : task.uid,\n"
+         "                              'exception'       : 'RuntimeError(\"pilot died\")',\n"
+         "                              'exception_detail': 'pilot %s is final' % pid,\n"
+         "                              'state'           : rps.FAILED}\n\n"
+         "                    task._update(update)\n"
+         "                    tasks.append(task.as_dict())\n")
+_UPD_NESTED = ("                        update = {'uid'             : task.uid,\n"
+         "                                  'exception'       : 'RuntimeError(\"pilot died\")',\n"
+         "                                  'exception_detail': 'pilot %s is final' % pid,\n"
+         "                                  'state'           : rps.FAILED}\n\n"
+         "                        task._update(update)\n"
+         "                        tasks.append(task.as_dict())\n")
+_GUARDED = _HEAD + _CMT + _BIND + _NFIN + _UPD
 
-
-def _fixed(binding="                    if task.pilot != pid:\n                        continue\n\n",
-           nonfinal="                    if task.state in rps.FINAL:\n                        continue\n\n"):
-    return (_TM, _LOOP,
-            "                for task in self._tasks.values():\n\n" +
-            binding + nonfinal +
-            "                    update = {'uid'             : task.uid,\n")
-
+# the repair of F03 as an edit on the unrepaired text (kept for reference and
+# for trees that do not carry the repair; make_overlay treats it as applied
+# when the new text is already there)
+FIX_F03 = (_TM, _HEAD + "                    update = {'uid'             : task.uid,\n",
+           _HEAD + _CMT + _BIND + _NFIN +
+           "                    update = {'uid'             : task.uid,\n")
 
 MUTATIONS = [
-    dict(name='R13.1 (F03 fixed) binding test inverted', rules=('R13.1',), edits=[
-        _fixed(binding="                    if task.pilot == pid:\n                        continue\n\n")]),
-    dict(name='R13.1 (F03 fixed) non-final test inverted', rules=('R13.1',), edits=[
-        _fixed(nonfinal="                    if task.state not in rps.FINAL:\n                        continue\n\n")]),
-    dict(name='R13.1 (F03 fixed) only DONE and FAILED tasks are skipped',
-         rules=('R13.1',), edits=[
-        _fixed(nonfinal="                    if task.state in [rps.DONE, rps.FAILED]:\n                        continue\n\n")],
+    dict(name='R13.1 F03 reverted: binding test removed', rules=('R13.1',), edits=[
+        (_TM, _BIND, "")]),
+    dict(name='R13.1 F03 reverted: non-final test removed', rules=('R13.1',), edits=[
+        (_TM, _NFIN, "")]),
+    dict(name='R13.1 F03 reverted completely', rules=('R13.1',), edits=[
+        (_TM, _CMT + _BIND + _NFIN, "")]),
+    dict(name='R13.1 binding test inverted', rules=('R13.1',), edits=[
+        (_TM, "                    if task.pilot != pid:\n", "                    if task.pilot == pid:\n")]),
+    dict(name='R13.1 non-final test inverted', rules=('R13.1',), edits=[
+        (_TM, "                    if task.state in rps.FINAL:\n", "                    if task.state not in rps.FINAL:\n")]),
+    dict(name='R13.1 only DONE and FAILED tasks are skipped', rules=('R13.1',), edits=[
+        (_TM, "                    if task.state in rps.FINAL:\n", "                    if task.state in [rps.DONE, rps.FAILED]:\n")],
          note='a CANCELED task still becomes FAILED'),
-    dict(name='R13.1 (F03 fixed) binding compared with the wrong polarity in nested form',
+    dict(name='R13.1 binding compared with the wrong polarity in nested form',
          rules=('R13.1',), edits=[
-        (_TM, _LOOP + "                              'exception'       : 'RuntimeError(\"pilot died\")',\n                              'exception_detail': 'pilot %s is final' % pid,\n                              'state'           : rps.FAILED}\n\n                    task._update(update)\n                    tasks.append(task.as_dict())\n",
-              "                for task in self._tasks.values():\n\n                    if task.pilot != pid and task.state not in rps.FINAL:\n\n"
-              "                        update = {'uid'             : task.uid,\n                                  'exception'       : 'RuntimeError(\"pilot died\")',\n                                  'exception_detail': 'pilot %s is final' % pid,\n                                  'state'           : rps.FAILED}\n\n                        task._update(update)\n                        tasks.append(task.as_dict())\n")]),
+        (_TM, _GUARDED,
+              _HEAD + "                    if task.pilot != pid and task.state not in rps.FINAL:\n\n" + _UPD_NESTED)]),
     dict(name='R13.1 pilot-final test dropped', rules=('R13.1',), edits=[
         (_TM, "            if state in rps.FINAL:\n\n                self._log.debug('pilot %s is final', pid)",
               "            if state:\n\n                self._log.debug('pilot %s is final', pid)")]),
@@ -587,18 +596,23 @@ MUTATIONS = [
 ]
 
 SILENT = [
-    dict(name='F03 repaired (two early continues)', edits=[FIX_F03]),
-    dict(name='F03 repaired, nested if form', edits=[
-        (_TM, _LOOP + "                              'exception'       : 'RuntimeError(\"pilot died\")',\n                              'exception_detail': 'pilot %s is final' % pid,\n                              'state'           : rps.FAILED}\n\n                    task._update(update)\n                    tasks.append(task.as_dict())\n",
-              "                for task in self._tasks.values():\n\n                    if pid == task.pilot and task.state not in rps.FINAL:\n\n"
-              "                        update = {'uid'             : task.uid,\n                                  'exception'       : 'RuntimeError(\"pilot died\")',\n                                  'exception_detail': 'pilot %s is final' % pid,\n                                  'state'           : rps.FAILED}\n\n                        task._update(update)\n                        tasks.append(task.as_dict())\n")]),
-    dict(name='F03 repaired, filtering comprehension as the iterable', edits=[
-        (_TM, "                for task in self._tasks.values():\n\n                    update = {'uid'",
-              "                for task in [t for t in self._tasks.values()\n                                     if  t.pilot == pid\n                                     and t.state not in rps.FINAL]:\n\n                    update = {'uid'")]),
+    dict(name='guards as one combined early continue', edits=[
+        (_TM, _BIND + _NFIN,
+              "                    if task.pilot != pid or task.state in rps.FINAL:\n                        continue\n\n")]),
+    dict(name='guards in nested if form, operands swapped', edits=[
+        (_TM, _GUARDED,
+              _HEAD + "                    if pid == task.pilot and task.state not in rps.FINAL:\n\n" + _UPD_NESTED)]),
+    dict(name='guards as a filtering comprehension used as the iterable', edits=[
+        (_TM, _HEAD + _CMT + _BIND + _NFIN,
+              "                for task in [t for t in self._tasks.values()\n"
+              "                                     if  t.pilot == pid\n"
+              "                                     and t.state not in rps.FINAL]:\n\n")]),
+    dict(name='non-final test before the binding test', edits=[
+        (_TM, _BIND + _NFIN, _NFIN + _BIND)]),
     dict(name='pilot-final test in early-continue form, uid read directly', edits=[
         (_TM, "            if state in rps.FINAL:\n\n                self._log.debug('pilot %s is final', pid)\n",
               "            if pilot.state not in rps.FINAL:\n                continue\n\n            if True:\n\n                self._log.debug('pilot %s is final', pid)\n")]),
-    dict(name='update dict passed inline, locals renamed', edits=[
+    dict(name='locals renamed', edits=[
         (_TM, "            pid   = pilot.uid\n            state = pilot.state\n\n            if state in rps.FINAL:\n\n                self._log.debug('pilot %s is final', pid)",
               "            puid  = pilot.uid\n            pid   = puid\n            state = pilot.state\n\n            if state in rps.FINAL:\n\n                self._log.debug('pilot %s is final', puid)"),
         (_TM, "'exception_detail': 'pilot %s is final' % pid,", "'exception_detail': 'pilot %s is final' % puid,")]),
